@@ -13,7 +13,7 @@ import (
 func init() { Registry["C08"] = checkC08 }
 
 func checkC08(p *core.Prog, r *core.Report) {
-	r.Explanation = "Decides structural necessary conditions of clean-prefix recovery: (R1) the log readers (AofFile.ReadLock, ReadHeader, ReadLockData, ReadTail) never report success after a detected failure: no return of an error value that the path facts prove nil while another error was found non-nil, and ReadLock's success returns carry the full-record equality n == recordLen+2; (R2) ReadHeader succeeds only after n == 12, the magic and the version tests; opening for append truncates a file shorter than its 12-byte header before writing a new header; (R3) in LoadAofFile a failed value read returns the error without invoking the record callback for that record; the record's value blob is read before any skip of the record (so the sequential value file stays aligned); (R4) AofFile.Flush writes the record file before the value file on every path; (R5) value bytes are buffered (dwindex grows) only on paths where records are buffered too (windex > 0), because Close and the rotation path flush only when records are buffered. (R6) the readers never hand out the error of io.ReadFull / io.ReadAtLeast unmapped (a partly present item must read as io.EOF, the only value the loaders treat as end of log); (R7) an oversized value is written directly to the value file only with the record buffer empty. (R8) the sequential readers return a constructed (non-EOF) error only about an item they have read completely - a partly present header or record must read as io.EOF; (R9) opening the newest append file for append cuts it back to a whole number of records before anything is appended. (R10) some function of the log truncates the value file - none does: known finding. (R11) a Truncate in AofFile.Open is made on files opened with O_APPEND, or a Seek follows (Truncate does not move the offset). NOT decided: behaviour at each of the 64 residues, where exactly the two files are cut after a crash between the two writes, fsync timing - these need crash images."
+	r.Explanation = "Decides structural necessary conditions of clean-prefix recovery: (R1) the log readers (AofFile.ReadLock, ReadHeader, ReadLockData, ReadTail) never report success after a detected failure: no return of an error value that the path facts prove nil while another error was found non-nil, and ReadLock's success returns carry the full-record equality n == recordLen+2; (R2) ReadHeader succeeds only after n == 12, the magic and the version tests; opening for append truncates a file shorter than its 12-byte header before writing a new header; (R3) in LoadAofFile a failed value read returns the error without invoking the record callback for that record; the record's value blob is read before any skip of the record (so the sequential value file stays aligned); (R4) AofFile.Flush writes the record file before the value file on every path; (R5) value bytes are buffered (dwindex grows) only on paths where records are buffered too (windex > 0), because Close and the rotation path flush only when records are buffered. (R6) the readers never hand out the error of io.ReadFull / io.ReadAtLeast unmapped (a partly present item must read as io.EOF, the only value the loaders treat as end of log); (R7) an oversized value is written directly to the value file only with the record buffer empty. (R8) the sequential readers return a constructed (non-EOF) error only about an item they have read completely - a partly present header or record must read as io.EOF; (R9) opening the newest append file for append cuts it back to a whole number of records before anything is appended. (R10) some function of the log truncates the value file - none does: known finding. (R11) a Truncate in AofFile.Open is made on files opened with O_APPEND, or a Seek follows (Truncate does not move the offset). (R12) ReadTail reads the newest record at an offset aligned to whole records (a real defect was repaired: a follower refused to start on a torn file). NOT decided: behaviour at each of the 64 residues, where exactly the two files are cut after a crash between the two writes, fsync timing - these need crash images."
 	r.Assumptions = []string{"Go type checker and go/ssa are correct for /repo", "bufio.Reader.Read returns (n>0, nil) or (0, err)"}
 	c08R1(p, r)
 	c08R2(p, r)
@@ -26,6 +26,7 @@ func checkC08(p *core.Prog, r *core.Report) {
 	c08R9(p, r)
 	c08R10(p, r)
 	c08R11(p, r)
+	c08R12(p, r)
 }
 
 func c08R1(p *core.Prog, r *core.Report) {
@@ -743,5 +744,53 @@ func c08R11(p *core.Prog, r *core.Report) {
 		r.Fail("C08/R11: Open has no Truncate")
 	case len(bad) == 0:
 		r.Hold(rule, "server.(*AofFile).Open: Truncate at the torn tail", p.Pos(fn.Pos()), "files opened with O_APPEND (or a Seek follows)")
+	}
+}
+
+// c08R12: ReadTail fetches the newest record of a log file for the position a
+// node restarts with (follower start-up, LoadMaxAofId). After a crash the file
+// can end inside a record, so "the last 64 bytes" are not a record: the read
+// offset has to be derived from the size rounded down to a whole number of
+// records behind the 12-byte header. Decided on the value: the offset handed
+// to ReadAt is computed with the record size (a remainder or a quotient by 64
+// of size-12), not just size-64.
+func c08R12(p *core.Prog, r *core.Report) {
+	const rule = "C08/R12"
+	r.Rule(rule, "AofFile.ReadTail reads at an offset derived from the file size rounded down to whole records ((size-12) modulo / divided by 64), never simply size-64", 1)
+	fn := mustFunc(p, r, "server.(*AofFile).ReadTail")
+	if fn == nil {
+		return
+	}
+	n, bad := 0, ""
+	ex := core.NewExplorer(p, core.Hooks{
+		ResolvePhi: func(phi *ssa.Phi) bool {
+			b, ok := phi.Type().Underlying().(*types.Basic)
+			return ok && b.Info()&types.IsInteger != 0
+		},
+		Instr: func(x *core.X) {
+			c := core.StaticCallee(x.Ins)
+			if c == nil || c.Name() != "ReadAt" || !x.Top() {
+				return
+			}
+			args := core.CallArgs(x.Ins)
+			off := core.Plain(x.Canon(args[len(args)-1]).S)
+			n++
+			if !(strings.Contains(off, "% 64") || strings.Contains(off, "/ 64")) || !strings.Contains(off, "- 12") {
+				bad = x.Pos() + " offset " + stable(off)
+			}
+		},
+	})
+	ex.NoHist = true
+	ex.Run(fn, nil)
+	key := "server.(*AofFile).ReadTail: offset of the last whole record"
+	switch {
+	case ex.Imprecise != "":
+		r.Fail("C08/R12: %s", ex.Imprecise)
+	case n == 0:
+		r.Fail("C08/R12: ReadTail has no ReadAt")
+	case bad != "":
+		r.Violate(rule, key, strings.SplitN(bad, " ", 2)[0], "the newest record is read at "+strings.SplitN(bad, " offset ", 2)[1]+", the last 64 bytes of the file whatever its length: when the file ends inside a record (crash) the bytes are not a record, ReadTail answers \"Lock Len error\" and a node starting as a follower on that directory refuses to start", nil)
+	default:
+		r.Hold(rule, key, p.Pos(fn.Pos()), "offset aligned to whole records")
 	}
 }
